@@ -127,8 +127,24 @@ func scenBAT(s *sched.Sim, cfg Config, res *Result) {
 		poison = 1 + s.T.Choose(3)
 	}
 	salt := fmt.Sprint(s.T.Choose(1 << 20))
-	env.net.FaultFor = poisonFault(poison, salt)
-	twin.net.FaultFor = poisonFault(poison, salt)
+	// an operation-dependent queryer: the factory gets the planning context of each operation, so
+	// a queryer may legitimately depend on it. Here the queryers of one drawn batch element fail
+	// (connection error) - in the batch and when that element is sent alone.
+	brokenEl := -1
+	if s.T.Bool(1, 4) {
+		brokenEl = s.T.Choose(maxN)
+	}
+	var brokenBatch, brokenAlone string
+	withBroken := func(base func(m *simnet.Message) *simnet.Fault, tag *string) func(m *simnet.Message) *simnet.Fault {
+		return func(m *simnet.Message) *simnet.Fault {
+			if brokenEl >= 0 && m.Tag == *tag {
+				return &simnet.Fault{Kind: "ErrBefore"}
+			}
+			return base(m)
+		}
+	}
+	env.net.FaultFor = withBroken(poisonFault(poison, salt), &brokenBatch)
+	twin.net.FaultFor = withBroken(poisonFault(poison, salt), &brokenAlone)
 
 	n := s.T.Range(0, maxN)
 	var els []batEl
@@ -171,6 +187,16 @@ func scenBAT(s *sched.Sim, cfg Config, res *Result) {
 		}
 		els = append(els, el)
 	}
+	if brokenEl >= n {
+		brokenEl = -1
+	}
+	for j := range els {
+		// attribution of a planning context to an element goes by content: no twin of the broken one
+		if brokenEl >= 0 && j != brokenEl && els[j].req.Query == els[brokenEl].req.Query && derefStr(els[j].req.OperationName) == derefStr(els[brokenEl].req.OperationName) {
+			brokenEl = -1
+		}
+	}
+	brokenBatch, brokenAlone = fmt.Sprintf("batch#%d", brokenEl), fmt.Sprintf("alone%d#0", brokenEl)
 	var batchResp *clientResp
 	alone := make([]*clientResp, n)
 	var doneA, doneB atomic.Bool
@@ -251,6 +277,9 @@ func scenBAT(s *sched.Sim, cfg Config, res *Result) {
 	}
 	if n == 0 {
 		res.Probe("bat.empty-batch")
+	}
+	if brokenEl >= 0 {
+		res.Probe("bat.operation-dependent-queryer-fails")
 	}
 	res.ProbeN("bat.answers-overtook", env.net.Overtakes)
 	for kf, v := range env.net.Fired {
